@@ -54,7 +54,7 @@ class Runner:
 
 
 def read_tsv(path):
-    return {l.split("\t")[0]: l.rstrip("\n").split("\t") for l in open(path) if l.strip()}
+    return {l.split("\t")[0]: l.rstrip("\n").split("\t") for l in open(path, errors="replace") if l.strip()}
 
 
 def verdict(impl, model):
@@ -85,18 +85,24 @@ def shrink_doc(runner, fields, kind):
     import binascii
     text = binascii.unhexlify(fields[3]).decode("utf8", "surrogatepass")
     try:
-        doc = json.loads(text, object_pairs_hook=lambda ps: ("o", ps))
+        doc = json.loads(text, object_pairs_hook=lambda ps: ("o", ps), parse_int=lambda x: ("n", x), parse_float=lambda x: ("n", x))
     except Exception:
         return fields
 
     def norm(v):
-        return ("a", [norm(x) for x in v]) if isinstance(v, list) else (("o", [(k, norm(x)) for k, x in v[1]]) if isinstance(v, tuple) else v)
+        if isinstance(v, list):
+            return ("a", [norm(x) for x in v])
+        if isinstance(v, tuple) and v[0] == "o":
+            return ("o", [(k, norm(x)) for k, x in v[1]])
+        return v          # scalars; number literals stay ("n", text) so that -0, 1.0, 1e5 keep their spelling
 
     def dump(v):
         if isinstance(v, tuple) and v[0] == "a":
             return "[" + ",".join(dump(x) for x in v[1]) + "]"
         if isinstance(v, tuple) and v[0] == "o":
             return "{" + ",".join(json.dumps(k) + ":" + dump(x) for k, x in v[1]) + "}"
+        if isinstance(v, tuple) and v[0] == "n":
+            return v[1]
         return json.dumps(v)
 
     def tokens(text):
@@ -108,7 +114,7 @@ def shrink_doc(runner, fields, kind):
 
     def candidates(v, p):
         """yield (path to container, index) deletions that keep the addressed positions stable"""
-        if not isinstance(v, tuple):
+        if not isinstance(v, tuple) or v[0] == "n":
             return
         keep = None
         if p:
@@ -147,18 +153,23 @@ def shrink_doc(runner, fields, kind):
         v, _ = verdict(impl.get("shr"), model.get("shr"))
         return v is not None and v[0] == kind
 
-    changed, rounds = True, 0
-    while changed and rounds < 6:
+    changed, rounds, budget = True, 0, 80
+    while changed and rounds < 40 and budget > 0:
         changed, rounds = False, rounds + 1
         for (cp, i) in list(candidates(doc, path)):
+            if budget <= 0:
+                break
             try:
                 nd = delete(doc, cp, i)
             except Exception:
                 continue
+            budget -= 1
             if still_fails(nd):
                 doc, changed = nd, True
                 break
     t = dump(doc)
+    if not still_fails(doc):      # the re-rendering lost the failure (spelling-dependent): keep the original text
+        return fields
     return [fields[0], "", fields[2], binascii.hexlify(t.encode("utf8", "surrogatepass")).decode()]
 
 
@@ -269,8 +280,14 @@ def run(ctx):
             ctx.known(k, known_listed[k]["signature"])
         else:
             ex_line, ex_impl = known_example.get(k, ("", None))
+            ex_doc = None
+            try:
+                import binascii
+                ex_doc = binascii.unhexlify(ex_line.split("\t")[3]).decode("utf8", "replace")
+            except Exception:
+                pass
             ctx.violation("defect %s reappeared: it is not (or no longer) listed as known - %s" % (k, (ex_impl or ["", "", "", "", ""])[4][:300]),
-                          {"id": k, "case_line": ex_line, "path": ex_line.split("\t")[2] if ex_line else None, "impl": ex_impl}, True)
+                          {"id": k, "case_line": ex_line, "path": ex_line.split("\t")[2] if ex_line else None, "document": ex_doc, "impl": ex_impl}, True)
     viols.sort(key=lambda fv: {"oracle": 0, "model": 1, "spec": 2}[fv[1][0]])
     for f, v in viols[:3]:
         kind, detail = v
